@@ -45,6 +45,30 @@ func IsValidBigModN(N *big.Int, ints ...*big.Int) bool {
 	return true
 }
 
+// IsBoundedInt returns true if n is not nil and |n| < 2¹⁺ˡ⁺ᵉ⋅N² (for N of the size of a Paillier modulus).
+// No honest prover sends a larger integer (the largest one is V in zkfac), so verifiers use this bound to refuse
+// oversized integers before they are used as exponents.
+func IsBoundedInt(n *saferith.Int) bool {
+	if n == nil {
+		return false
+	}
+	return n.TrueLen() <= 1+params.LPlusEpsilon+2*params.BitsIntModN
+}
+
+// IsInPlaintextRange returns true if n ∈ [-(N-1)/2,…,(N-1)/2], the range of messages accepted by paillier's EncWithNonce.
+func IsInPlaintextRange(N *saferith.Modulus, n *saferith.Int) bool {
+	if N == nil || n == nil {
+		return false
+	}
+	if n.TrueLen() > N.BitLen() {
+		return false
+	}
+	nHalf := new(saferith.Nat).SetNat(N.Nat())
+	nHalf.Rsh(nHalf, 1, -1)
+	gt, _, _ := n.Abs().Cmp(nHalf)
+	return gt != 1
+}
+
 // IsInIntervalLEps returns true if n ∈ [-2ˡ⁺ᵉ,…,2ˡ⁺ᵉ].
 func IsInIntervalLEps(n *saferith.Int) bool {
 	if n == nil {
